@@ -2036,19 +2036,37 @@ impl<'a, SE: extensions::ShellExtensions> WordExpander<'a, SE> {
             }
 
             brush_parser::word::SubstringMatchKind::Anywhere => {
-                // A pattern that matches the empty string is applied before every character of
-                // the value, but not once more after the last one.
+                // Scan the value the way bash does: after each replacement the search resumes where
+                // the match ended, an empty match there counts (and lets one character through), and
+                // nothing is tried at the very end of a non-empty value.
+                if s.is_empty() {
+                    return regex
+                        .replace(s, fancy_regex::NoExpand(replacement))
+                        .into_owned();
+                }
                 let mut result = String::with_capacity(s.len());
-                let mut last = 0;
-                for m in regex.find_iter(s).map_while(Result::ok) {
-                    if m.start() == m.end() && m.start() == s.len() && !s.is_empty() {
+                let mut pos = 0;
+                while pos < s.len() {
+                    let Ok(Some(m)) = regex.find_from_pos(s, pos) else {
+                        break;
+                    };
+                    if m.start() >= s.len() {
                         break;
                     }
-                    result.push_str(&s[last..m.start()]);
+                    result.push_str(&s[pos..m.start()]);
                     result.push_str(replacement);
-                    last = m.end();
+                    if m.end() > m.start() {
+                        pos = m.end();
+                    } else {
+                        let next = s[m.start()..]
+                            .chars()
+                            .next()
+                            .map_or(s.len(), |c| m.start() + c.len_utf8());
+                        result.push_str(&s[m.start()..next]);
+                        pos = next;
+                    }
                 }
-                result.push_str(&s[last..]);
+                result.push_str(&s[pos..]);
                 result
             }
         }
